@@ -139,7 +139,8 @@ Definition dropped (k : c09case) : bool :=
 
 (* the input class a violation is attributed to (first that applies):
    3 per-mutation sync; 2 shallow clocks; 1 a reply was overtaken by a push;
-   6 a source with MachineTick <> 0; 8 the placeholder
+   6 a source with MachineTick <> 0 while /repo lacks one of the machine-tick
+   repairs of the client side; 8 the placeholder
    dataLatest of NewServer was pushed; 5 a full Sync happened; 4 a push
    consumed a snapshot without sending it (empty Indexes); 7 reconnect;
    0 none of these. *)
@@ -148,7 +149,8 @@ Definition cls (k : c09case) : N :=
   if p_mut (k_p k) then 3
   else if shallow (p_codec (k_p k)) then 2
   else if raced k then 1
-  else if negb (s_m (k_hello_src k) =? 0) then 6
+  else if negb (s_m (k_hello_src k) =? 0)
+          && negb (p_hello_m (k_p k) && p_sync_m (k_p k)) then 6
   else if st_initpush s then 8
   else if st_synced s then 5
   else if st_silent s then 4
